@@ -418,11 +418,25 @@ func (g *gstate) podEvent() {
 	}
 }
 
+// podReconcile: 22% of the deliveries of a pod that mounts volumes happen while PersistentVolume / StorageClass reads fail
+// ("rpf": if the lookup is reached the reconcile returns the error and the key stays dirty, a later delivery retries it)
+func (g *gstate) podReconcile(name string) {
+	if p := g.pods[name]; p != nil && len(p.Vols) > 0 && g.r.Float64() < 0.22 {
+		g.emit(Ev{T: "rpf", Name: name})
+		return
+	}
+	g.emit(Ev{T: "rp", Name: name})
+}
+
 func (g *gstate) reconcileOne() {
 	r := g.r
 	if len(g.dirty) > 0 && r.Float64() < 0.85 {
 		keys := sortedKeys(g.dirty)
 		k := keys[r.IntN(len(keys))]
+		if k[:1] == "p" {
+			g.podReconcile(k[2:])
+			return
+		}
 		g.emit(Ev{T: "r" + k[:1], Name: k[2:]})
 		return
 	}
@@ -433,7 +447,7 @@ func (g *gstate) reconcileOne() {
 	case 1:
 		g.emit(Ev{T: "rc", Name: "c" + itoa(g.machine())})
 	default:
-		g.emit(Ev{T: "rp", Name: "x" + itoa(1+r.IntN(g.np))})
+		g.podReconcile("x" + itoa(1+r.IntN(g.np)))
 	}
 }
 
@@ -445,7 +459,7 @@ func (g *gstate) settle() {
 	}
 }
 
-func (g *gstate) markEvent() {
+func (g *gstate) somePid() string {
 	r := g.r
 	pid := "p" + itoa(g.machine())
 	if r.Float64() < 0.1 {
@@ -454,7 +468,29 @@ func (g *gstate) markEvent() {
 	if r.Float64() < 0.1 {
 		pid = "n" + itoa(g.machine()) // unmanaged nodes are keyed by their name
 	}
-	g.emit(Ev{T: pick(r, "mark", "mark", "unmark", "nominate"), Pid: pid})
+	return pid
+}
+
+// markEvent: 40% of the mark / unmark events are ONE call with 2-4 provider ids (a multi-node disruption command): every
+// machine's id in random order, with ids the cache never tracked ("pz") or no longer tracks mixed in at any position
+func (g *gstate) markEvent() {
+	r := g.r
+	t := pick(r, "mark", "mark", "unmark", "nominate")
+	if t != "nominate" && r.Float64() < 0.4 {
+		var pids []string
+		for i := 1; i <= g.nm; i++ {
+			if r.Float64() < 0.85 {
+				pids = append(pids, "p"+itoa(i))
+			}
+		}
+		for len(pids) < 2 || (r.Float64() < 0.5 && len(pids) < 4) {
+			pids = append(pids, pick(r, "pz", "pz", g.somePid(), "p"+itoa(g.machine())))
+		}
+		r.Shuffle(len(pids), func(i, j int) { pids[i], pids[j] = pids[j], pids[i] })
+		g.emit(Ev{T: t, Pids: pids})
+		return
+	}
+	g.emit(Ev{T: t, Pid: g.somePid()})
 }
 
 func genHistory(r *rand.Rand, t core.Tier) any {
@@ -562,6 +598,17 @@ func scripts() []script {
 		{name: "volumes-one-driver-pod-readded", pvcs: densePvcs, pre: []Ev{nodeLim3, podVol("x1", "pvc-a"), podVol("x2", "pvc-b"), podVol("x3", "pvc-e"), podVol("x4", "pvc-g"),
 			{T: "rn", Name: "n1"}, {T: "rp", Name: "x1"}, {T: "rp", Name: "x2"}, {T: "rp", Name: "x3"}, {T: "rp", Name: "x4"},
 			podVol("x1", "pvc-f"), {T: "podGone", Name: "x2"}, {T: "podGone", Name: "x4"}}},
+		// ONE MarkForDeletion call with several provider ids, one of which is no longer tracked (its Node went away between
+		// candidate selection and marking), at the front / in the middle of the list; then one UnmarkForDeletion call
+		{name: "mark-many-untracked-first", pre: []Ev{claim, with(claim, func(e *Ev) { e.Name = "c3"; e.Pid = "p3" }), nodeFull, with(nodeFull, func(e *Ev) { e.Name = "n2"; e.Pid = "p2" }), with(nodeFull, func(e *Ev) { e.Name = "n3"; e.Pid = "p3" }),
+			{T: "rc", Name: "c1"}, {T: "rc", Name: "c3"}, {T: "rn", Name: "n1"}, {T: "rn", Name: "n2"}, {T: "rn", Name: "n3"}, {T: "nodeGone", Name: "n2"}, {T: "rn", Name: "n2"},
+			{T: "mark", Pids: []string{"p2", "p1", "p3"}}, {T: "unmark", Pids: []string{"pz", "p3", "p1"}}, {T: "mark", Pids: []string{"p1", "p2", "p3"}}, podA}},
+		// the volume lookup fails when the pod is first observed; the pod then goes away / moves / the lookup is retried
+		{name: "volume-lookup-fails-pod-leaves", pre: []Ev{nodeFull, {T: "rn", Name: "n1"}, podA, {T: "rpf", Name: "x1"}, {T: "podGone", Name: "x1"}, podDs}},
+		{name: "volume-lookup-fails-pod-moves", pre: []Ev{nodeFull, with(nodeFull, func(e *Ev) { e.Name = "n2"; e.Pid = "p2" }), {T: "rn", Name: "n1"}, {T: "rn", Name: "n2"}, podA, {T: "rpf", Name: "x1"},
+			with(podA, func(e *Ev) { e.Node = "n2" }), {T: "rpf", Name: "x1"}, podDs}},
+		{name: "volume-lookup-fails-then-retried", pre: []Ev{nodeFull, {T: "rn", Name: "n1"}, podA, {T: "rp", Name: "x1"}, with(podA, func(e *Ev) { e.Req = []int64{1000, 512, 1}; e.Vols = []string{"pvc-b"} }), {T: "rpf", Name: "x1"},
+			with(podA, func(e *Ev) { e.Phase = "Succeeded" }), {T: "rpf", Name: "x1"}, podDs}},
 		{name: "registration", pre: []Ev{claim, {T: "rc", Name: "c1"}, with(nodeFull, func(e *Ev) { e.Reg = false; e.Init = false; e.Cap = []int64{0, 0, 0, 0} }), podDs, {T: "rn", Name: "n1"},
 			with(nodeFull, func(e *Ev) { e.Init = false }), podA, with(claim, func(e *Ev) {})}},
 	}
@@ -588,8 +635,8 @@ func enumHistory(core.Tier) []any {
 		for _, e := range s.pre {
 			if isAPI(e.T) {
 				dirty[kindOf(e.T)+"/"+e.Name] = true
-			} else if k := kindOf(e.T); k != "" {
-				delete(dirty, k+"/"+e.Name)
+			} else if k := kindOf(e.T); k != "" && e.T != "rpf" {
+				delete(dirty, k+"/"+e.Name) // (a faulty pod delivery leaves the key to be retried)
 			}
 		}
 		keys := sortedKeys(dirty)
